@@ -112,8 +112,10 @@ def prt2(ctx: Ctx):
                         other, get = (t[2], t[3]) if any(x == DP for x in walk(t[3])) else (t[3], t[2])
                         # an (in)equality test of a port against the default of the URL's own scheme, either way round; which
                         # branch elides the port is judged below, on what each path does
-                        ok = t[1] in ("Eq", "NotEq") and get[0] == "call" and get[1] == ("attr", DP, "get") and len(get[2]) == 1 \
-                            and is_port_term(other, fi) and _scheme_term(get[2][0], other)
+                        # the default is looked up with .get(scheme), or by subscript under a handled KeyError (no default: no test)
+                        looked_up = (get[0] == "call" and get[1] == ("attr", DP, "get") and len(get[2]) == 1 and _scheme_term(get[2][0], other)) or \
+                            (get[0] == "sub" and get[1] == DP and _scheme_term(get[2], other) and _keyerror_guarded(fi))
+                        ok = t[1] in ("Eq", "NotEq") and looked_up and is_port_term(other, fi)
                         ctx.ob(rule, fi.qual, show(t), ok,
                                "default-port test is not `port == DEFAULT_PORTS.get(scheme of the same URL)`", where(fi, e.node),
                                sample="== DEFAULT_PORTS.get(own scheme)")
@@ -184,6 +186,19 @@ def _elision_polarity(ctx, rule, model, fi, pairs):
     ctx.instance(rule)
     ctx.ob(rule, fi.qual, "which branch elides the port", not problems, problems[0][1] if problems else "",
            where(fi, problems[0][0] if problems else fi.node), sample="port left out iff absent or equal to the scheme default")
+
+
+def _keyerror_guarded(fi):
+    """Every subscript of DEFAULT_PORTS in the function sits in the body of a `try` that handles KeyError."""
+    subs = [n for n in ast.walk(fi.node) if isinstance(n, ast.Subscript) and isinstance(n.value, ast.Name) and n.value.id == "DEFAULT_PORTS"]
+    if not subs:
+        return False
+    guarded = set()
+    for t in ast.walk(fi.node):
+        if isinstance(t, ast.Try) and any(isinstance(h.type, ast.Name) and h.type.id in ("KeyError", "LookupError", "Exception") for h in t.handlers):
+            for b in t.body:
+                guarded.update(id(n) for n in ast.walk(b))
+    return all(id(n) in guarded for n in subs)
 
 
 def _scheme_term(s, port):
